@@ -14,9 +14,9 @@ type C04Case struct {
 	Calls []Call   `json:"calls"`
 }
 
-func genHistoryWorld(g gen.G) m.WorldM {
+func genHistoryWorld(g gen.G, depBoostPct int) m.WorldM {
 	o := gen.WorldOpts{
-		Schema:   gen.SchemaOpts{MaxDepth: 2, DepBoost: g.Chance(60)},
+		Schema:   gen.SchemaOpts{MaxDepth: 2, DepBoost: g.Chance(depBoostPct)},
 		Cfg:      gen.CfgOpts{Violations: 6, Layout: false, HalfTyped: 12},
 		MaxPaths: 2, MaxFiles: 2, Edits: 1, Faults: true,
 	}
@@ -27,7 +27,7 @@ func genHistoryWorld(g gen.G) m.WorldM {
 }
 
 func genC04(g gen.G) C04Case {
-	w := genHistoryWorld(g)
+	w := genHistoryWorld(g, 60)
 	calls := GenCalls(g, w, g.Int(8, 30))
 	// sprinkle queries that return errors: unknown file, position out of range
 	for i := range calls {
